@@ -13,15 +13,15 @@ CLAIMS = {
  "C01": ("One inductive step of Processor.Process from an arbitrary protocol phase (symbolic state, packet type, body, callbacks, dial outcome) plus K-packet histories from the initial state; "
          "asserts success-only-in-order, dial only in phase 3 after the host check and at most once, relay only on DATA with an open channel, nothing read after an error/close response, loop invariant re-established. "
          "Bounded model checking is the right level: the quantifier is over all packet histories, which the step covers by induction (paper argument) and the K-bounded run cross-checks.",
-         "6.C01", "Transport, net.Conn, net.DialTimeout and the three policy callbacks are stubs with the contracts of DESIGN Appendix C; body <= 10 (quick) / 24 (thorough) bytes; inner declared lengths <= carried+4; client-name units after the first are ASCII; induction over steps is a paper argument; the websocket/legacy transports themselves are outside."),
+         "6.C01", "Transport, net.Conn, net.DialTimeout and the three policy callbacks are stubs with the contracts of DESIGN Appendix C; body <= 10 (quick) / 24 (thorough) bytes; inner declared lengths <= carried+4; client-name units after the first are ASCII; induction over steps is a paper argument; the websocket/legacy transports themselves are outside; 'token authentication implies a wired cookie check' is checked on the real main() (VP_C05_routes)."),
  "C02": ("security.CheckPAACookie and GeneratePAAToken executed symbolically around contract stubs of go-jose/go-oidc: acceptance implies HS256 allow-list, MAC under the PAA signing key (not any other gateway key), issuer, expiry with the real go-jose Validate arithmetic over symbolic times, IdP verdict on the embedded access token, tunnel bound to the verified claims; minting: HS256 + signing key, expiry - now <= 300 s, refusal under 32 bytes.",
          "6.C02", "Cryptography is replaced by contracts (DESIGN Appendix C): unforgeability, base64/JSON parsing, bit-mutation resistance and 'a freshly minted token is accepted' are NOT decided; claim strings are 2 (4) symbolic bytes."),
  "C03": ("channelRequest/DecodeUTF16 decoded against an independent per-code-unit oracle for all names up to 3 (quick) / 5 (thorough) UTF-16 units and all declared sizes; the step harness proves the string given to CheckHost is byte-equal to the string dialed and that a refusal dials nothing; security.CheckHost/CheckSession policy over bounded host lists and names against an oracle written from the property text.",
          "6.C03", "Names <= 5 units, host strings <= the stated byte bounds, <= 2 (3) host entries with affixes <= 1 (2) bytes; DNS/IPv6 semantics of the dialed string are outside (the property is byte equality)."),
  "C04": ("CheckSession for all token/presenting address pairs (<= 3/5 bytes, attribute present/absent/non-string) and both switch settings; EnrichContext's client-address derivation from X-Forwarded-For / peer address against an independent oracle; the cookie check binds the tunnel to the verified address claim and the mint writes the clientIp attribute (shared C02 harnesses).",
          "6.C04", "X-Forwarded-For <= 4 (7) ASCII bytes; four representative peer addresses; textual variants of one IP are different strings by design of the property."),
- "C05": ("BasicAuth / NTLMAuth middlewares and NoAuthz/SetAuthenticate executed symbolically against a stubbed authentication service: next handler reached iff the backend confirmed, identity = confirmed name, 401/500 and challenge headers otherwise, no panic for any header value the route matcher can deliver.",
-         "6.C05", "The route table built in main() (gorilla/mux builder calls, 16 mechanism subsets) is NOT encoded: gorilla/mux matching, regexp and SPNEGO are third-party; only the middleware decision logic is claimed."),
+ "C05": ("BasicAuth / NTLMAuth middlewares and NoAuthz/SetAuthenticate executed symbolically against a stubbed authentication service (next handler reached iff the backend confirmed, identity = confirmed name, 401/500 and challenge headers otherwise, no panic for any header value the route matcher can deliver), and the route table that main() builds for every startable subset of mechanisms: the tunnel handler is reachable bare iff OpenID is the only mechanism, otherwise only through the wrapper of an enabled scheme whose keyword the header carries; no header -> 401 with one challenge per enabled scheme.",
+         "6.C05", "main() is executed up to ListenAndServe with gorilla/mux's builder methods recording a ghost route table (VP_C05_routes): requests with an arbitrary Authorization value (<= 9/12 bytes) are dispatched by mux's documented rules (registration order, unanchored HeadersRegexp, MatcherFunc), for every startable mechanism subset. gorilla/mux's own matching, regexp beyond literal words, SPNEGO validation and net/http header parsing are contracts, not decided."),
  "C06": ("forward() and receive() executed symbolically: per read / per DATA packet exactness, header and payload length fields, order, single write, no invented bytes; sizes around 0,1,2,255,4085,4086 (thorough 256,4087,8200).",
          "6.C06", "net.Conn and Transport stubs deliver what they are given; whole-stream exactness follows from per-packet exactness plus C08 framing (paper argument); multi-MiB streams and interleaving of the two directions are outside."),
  "C07": ("One arbitrary packet on tunnel A from an arbitrary phase while a fully symbolic tunnel B is registed: B's phase, identity, token host, address, transports, backend and registry entry and the shared Gateway are asserted unchanged; HandleGatewayProtocol run for two requests with symbolic connection ids and kinds shows connections share a tunnel only under equal ids.",
@@ -43,7 +43,7 @@ CLAIMS = {
  "C15": ("security.UserInfo / GenerateUserToken around go-jose contract stubs in both key modes and the no-encryption-key corner, and web.TokenInfo statuses (405/400/403/200, nothing disclosed on refusal).",
          "6.C15", "Confidentiality, per-segment mutation and cross-mode rejection inside go-jose are contracts."),
  "C16": ("All five response builders for every status/version/caps value, tunnel-auth policy word for all 2^7 switch combinations and all int32 idle timeouts, and per-step response layout/status in the C01 step harness, against literal MS-TSGU offsets.",
-         "6.C16", "Configuration->Gateway field mapping in main() is not encoded (reflection/third-party constructors); close-response carries 8 extra bytes (noted, not alarmed)."),
+         "6.C16", "The configuration->Gateway field mapping is checked on the real main() (VP_C05_routes: redirect switches, idle timeout, capability switches copied field by field); close-response carries 8 extra bytes (noted, not alarmed)."),
  "C17": ("matchAuth for all 2^16 client words x 4 server settings and the whole handshake step (body length 0..8, all version bytes, follow-up packet) in single symbolic runs.",
          "6.C17", "Transport stub; handshake body <= 8 bytes."),
  "C18": ("config.Load's post-unmarshal logic with koanf stubbed: fatal iff one of the five inconsistent combinations; each key of length 0/1/31/32/33 kept or replaced by a 32-character string from the 63-letter alphabet with one CSPRNG draw per character; NewHandler without hosts and InitStore with short keys are fatal; GenerateRandomString against its specification.",
